@@ -260,7 +260,7 @@ pub static C16: Profile = Profile {
 
 // =============================================================================== C17
 
-/// The 19-symbol option alphabet. Component ids are allocated per occurrence.
+/// The 20-symbol option alphabet. Component ids are allocated per occurrence.
 #[derive(Clone, Copy, Debug, PartialEq)]
 enum Sym {
     NameA,
@@ -284,10 +284,12 @@ enum Sym {
     /// add_middleware with the *same instance* that was configured last (a fresh one if none):
     /// "add_* appends" also when the object is already in the list
     AddMwSame,
+    /// a name that consists of white space only: not empty, so it must build and be used as it is
+    NameBlank,
 }
-const SYMS: [Sym; 19] = [
+const SYMS: [Sym; 20] = [
     Sym::NameA, Sym::NameB, Sym::NameEmpty, Sym::WithReducer, Sym::WithReducers2, Sym::WithReducers0, Sym::AddReducer, Sym::WithoutReducer,
-    Sym::Cap0, Sym::Cap1, Sym::Cap3, Sym::PolBlock, Sym::PolOldest, Sym::PolLatest, Sym::WithMw, Sym::WithMws2, Sym::WithMws0, Sym::AddMw, Sym::AddMwSame,
+    Sym::Cap0, Sym::Cap1, Sym::Cap3, Sym::PolBlock, Sym::PolOldest, Sym::PolLatest, Sym::WithMw, Sym::WithMws2, Sym::WithMws0, Sym::AddMw, Sym::AddMwSame, Sym::NameBlank,
 ];
 
 /// record-of-last-settings model
@@ -316,10 +318,12 @@ fn c17_scenario(with_ctor_reducer: bool, seq: &[Sym]) -> Scenario {
     let mut calls = vec![];
     for sy in seq {
         match sy {
-            Sym::NameA | Sym::NameB | Sym::NameEmpty => {
+            Sym::NameA | Sym::NameB | Sym::NameEmpty | Sym::NameBlank => {
+                // "beta" comes padded with white space: the store must use exactly the configured name
                 let n = match sy {
                     Sym::NameA => "alpha",
-                    Sym::NameB => "beta",
+                    Sym::NameB => " beta ",
+                    Sym::NameBlank => " ",
                     _ => "",
                 };
                 m.name = n.to_string();
@@ -651,7 +655,7 @@ pub fn c17_check(scn: &Scenario, h: &History) -> Outcome {
 
 pub static C17: Profile = Profile {
     id: "C17",
-    rule: "enumeration: every builder call sequence of length 0..=3 (quick) / 0..=4 (thorough) over the 19-symbol option alphabet {with_name(a|b|\"\"), with_reducer, with_reducers([r,r']|[]), add_reducer, without_reducer, with_capacity(0|1|3), with_policy x3, with_middleware, with_middlewares([m,m']|[]), add_middleware(new instance), add_middleware(the instance configured last)} on both constructors (2 x 7240 / 2 x 137561), plus proptest sequences of length 5-9. Oracle O-BUILD: record-of-last-settings model for Ok/InitError; the built store is probed: callback order of one action (reducer chain, middleware order), pool thread name, and - with the pipeline held at a primer - exact capacity and policy (burst survivors, dropped metric, Ok/Err per call; under BlockOnFull `capacity` dispatches must fit and the next must wait: deadlock = violation under the schedule-controlled driver). Non-trivial = the sequence sets >= 2 different options or one option twice; distinct = distinct sequences.",
+    rule: "enumeration: every builder call sequence of length 0..=3 (quick) / 0..=4 (thorough) over the 20-symbol option alphabet {with_name(\"alpha\"|\" beta \"|\" \"|\"\"), with_reducer, with_reducers([r,r']|[]), add_reducer, without_reducer, with_capacity(0|1|3), with_policy x3, with_middleware, with_middlewares([m,m']|[]), add_middleware(new instance), add_middleware(the instance configured last)} on both constructors (2 x 8421 / 2 x 168421), plus proptest sequences of length 5-9. Oracle O-BUILD: record-of-last-settings model for Ok/InitError; the built store is probed: callback order of one action (reducer chain, middleware order), pool thread name, and - with the pipeline held at a primer - exact capacity and policy (burst survivors, dropped metric, Ok/Err per call; under BlockOnFull `capacity` dispatches must fit and the next must wait: deadlock = violation under the schedule-controlled driver). Non-trivial = the sequence sets >= 2 different options or one option twice; distinct = distinct sequences.",
     raw: c17_raw,
     build: c17_build,
     check: c17_check,
